@@ -635,6 +635,9 @@ def main(rep, tier, only):
     if only in (None, "WRAP2", "COUNT"):
         from checks import c16_more
         c16_more.rules(rep, db, INLINE)
+    if only in (None, "JOIN"):
+        from checks import c16_more
+        c16_more.rules_join(rep, load.load(tier, lib=False, drivers=["drv_containers", "drv_algorithms"]), INLINE)
     if only in (None, "ASSOC"):
         from checks import c16_more
         c16_more.rules_assoc(rep, load.load(tier, lib=False, drivers=["drv_containers", "drv_algorithms"]), INLINE)
@@ -645,7 +648,7 @@ def main(rep, tier, only):
         from checks import c16_more
         c16_more.rules_strings(rep, db, INLINE)
     rep.extra["not_covered"] = [
-                                "map_iteration / sequence_iteration (end() re-evaluation and erase continuation only: ERASE-SAFE; progress: C01 LOOP)", "container::join, find_by_opt",
+                                "map_iteration / sequence_iteration (end() re-evaluation and erase continuation only: ERASE-SAFE; progress: C01 LOOP)", "find_by_opt",
                                 "array:: and tuple:: helpers (only the evaluation order of init: ORDER; value conservation: C05)", "static ranges (tuples, mpl lists)"]
     rep.explanation = ("Opaque functors make every call a named event; run-time ranges are unrolled twice (longer ranges end as a truncated prefix). "
                        "Decides, for the listed helpers, the clause 'visit elements in order, stop where documented, result built from the calls in "
